@@ -230,10 +230,11 @@ func (in *Input) normalize() {
 		for i := range in.Groups[g].Specs {
 			s := &in.Groups[g].Specs[i]
 			for k := range s.Omit {
-				s.Omit[k] = strings.TrimRight(strings.ReplaceAll(s.Omit[k], "\n", ""), " ")
+				// a comment line loses its trailing white space (ast.CommentGroup.Text) before the tags are read
+				s.Omit[k] = strings.TrimRight(strings.ReplaceAll(s.Omit[k], "\n", ""), " \t")
 			}
 			for k := range s.Replace {
-				s.Replace[k] = strings.TrimRight(strings.ReplaceAll(s.Replace[k], "\n", ""), " ")
+				s.Replace[k] = strings.TrimRight(strings.ReplaceAll(s.Replace[k], "\n", ""), " \t")
 			}
 			if s.Origin < 0 || s.Origin >= len(in.Types) {
 				s.Origin = 0
